@@ -29,6 +29,8 @@ Forms == {"qual",       \* m::a() / m::b() / m::n::a()
           "wild",       \* use m::* ... target()        (use m::n::* for na)
           "reexport",   \* k::target()                   (k re-exports it)
           "shadow",     \* use m::target; let target = | | 7; target()
+          "facade2",    \* three levels: mod m { mod n { [pub] mod h { [pub] fn c = 3 } }  [pub] use n::h::c }  ...  m::c()
+                        \* (the flag pubB stands for `pub mod h` here)
           "bare",       \* a() / b() with no import at all: the name of a module member is not in scope outside
           "facade"}     \* m itself re-exports a member of its own (private or public) submodule:
                         \* mod m { [pub] mod n { [pub] fn c = 3 }  [pub] use n::c }  ...  m::c()
@@ -56,8 +58,8 @@ Visible(c, x, pos) ==
 (* which references are meaningful programs in this scope *)
 Applicable(c) ==
   /\ (c.form = "reexport" => (c.reexp = c.target /\ c.pos = "root"))
-  /\ (c.form \notin {"reexport", "facade"} => c.reexp = "none" /\ c.reexpPub = FALSE)  \* only varied for re-exports
-  /\ (c.form = "facade" => c.reexp = "none" /\ c.target = "na" /\ c.pos = "root")
+  /\ (c.form \notin {"reexport", "facade", "facade2"} => c.reexp = "none" /\ c.reexpPub = FALSE)  \* only varied for re-exports
+  /\ (c.form \in {"facade", "facade2"} => c.reexp = "none" /\ c.target = "na" /\ c.pos = "root")
   /\ (c.form = "usemulti" => c.target \in {"a", "b"})
   /\ (c.pos = "inm" => c.form \in {"qual"})                                 \* inside m: plain sibling references
   /\ (c.pos = "glet" => c.form \in {"qual", "bare"})
@@ -82,6 +84,11 @@ Resolve(c) ==
          \* and the re-export public
          IF c.pubNA /\ c.reexpPub THEN [ok |-> TRUE, val |-> 3, either |-> FALSE]
          ELSE [ok |-> FALSE, val |-> 0, either |-> FALSE]
+    [] c.form = "facade2" ->
+         \* m sees its child n, but a module h that n keeps private is n's own: m may re-export
+         \* n::h::c only if h and c are pub, and the re-export itself must be public
+         IF c.pubB /\ c.pubNA /\ c.reexpPub THEN [ok |-> TRUE, val |-> 3, either |-> FALSE]
+         ELSE [ok |-> FALSE, val |-> 0, either |-> FALSE]
     [] c.form = "reexport" ->
          \* k may re-export only what it can see itself, and the re-export must be public
          IF Visible(c, c.target, "ink") /\ c.reexpPub
@@ -93,7 +100,7 @@ Resolve(c) ==
 
 (* sanity of the scope itself: a private member is never resolved from outside its module *)
 PrivacyHolds ==
-  (phase = 1 /\ Applicable(cfg) /\ cfg.pos # "inm" /\ ~PubIn(cfg, cfg.target) /\ cfg.form \notin {"shadow", "facade"})
+  (phase = 1 /\ Applicable(cfg) /\ cfg.pos # "inm" /\ ~PubIn(cfg, cfg.target) /\ cfg.form \notin {"shadow", "facade", "facade2"})
      => ~Resolve(cfg).ok
 
 InvEmit == (Emit /\ phase = 1 /\ Applicable(cfg)) =>
